@@ -77,5 +77,9 @@ check("C18", "exploration",
       "Differential oracle on pairs of sessions: the key script K typed twice vs K recorded and replayed (Emacs C-x ( ... C-x ) C-x e; Vi q<r> ... q @<r> over 10 registers), K = 1-12 tokens of text with quotes/backslashes/escape look-alikes, control keys, ESC-prefixed keys, CSI keys, quoted-insert, digit arguments, Vi commands with counts and argument keys; final buffer texts must be equal.",
       TCB + " In Vi scripts a key that would combine with a directly preceding ESC into a bound sequence is excluded (replay carries no timing; same exclusion as C05).", "runtime monitoring: differential oracle (retype vs record+replay) over paired sessions", "DESIGN.md 5 C18")
 
+check("C20", "exploration",
+      "Race-detector build. Each script runs undisturbed and then with SIGWINCH (real size changes, bursts of 2-20) and Shell.Printf from a second goroutine fired at logical trigger points: while the main loop is parked at a wait (settled or with the next keys delivered at once) and inside a redisplay (the emulator holds the main loop's cursor answer until the disturber has queried too, then answers in either order or in one write). Oracles: no crash, no deadlock / stuck keystroke (logical criteria on goroutine dumps, gate counters and the tty queue), same (line, err) as the undisturbed run, consistent screen after the next redisplay, and no data race report with a library frame outside the calibrated known set.",
+      TCB + " Which interleavings are realised is reported (evidence: trigger_points_realised, race_entry_pairs, race_functions_seen); a clean run says nothing about interleavings not realised.", "runtime monitoring: Go race detector + deadlock/stuck-keystroke detectors + differential vs undisturbed run under controlled disturbance schedules", "DESIGN.md 5 C20")
+
 for _p in ["C03","C04","C05","C06","C07","C08","C09","C10","C11","C12","C13","C14","C15","C16","C17","C18","C19","C20"]:
     NOT_YET[_p] = "check under construction in this session (runtime monitor designed in DESIGN.md section 5, not yet registered)"
